@@ -6,11 +6,16 @@
   Gauss–Jordan elimination with partial pivoting (`gaussSolve`, Model/Compact.lean). Proofs/Gauss.lean proves, over
   any ordered field and whatever row the pivoting selects, that when no pivot vanishes the vector returned is
   the solution of the system (`gauss_solves`, `gauss_unique`), and that the pivots depend on the matrix only.
-  So the kernels' theorems hold under a computable condition — "no pivot of the elimination on `M⁻¹`, resp. on
-  `N = M⁻¹ − (1/θ)·WᵀZZᵀW`, vanishes" — plus sizes and `Mm·M⁻¹ = 1`, instead of assuming the solves exact:
-    * `middle_product_exact`  : `mv v = Mm·v` for every `v`                                  (C08 `QCtx.hmv`)
-    * `subspace_newton_point_solved`, `subspace_model_no_increase_solved`, `subspace_direction_descent_solved`
-                                                                                          (C09, from `SubCtxP`)
+  A matrix on which `x ↦ A x` is injective — in particular one with a left inverse — has no vanishing pivot
+  (`regular_pivots`: a vanishing pivot yields a non-zero solution of the homogeneous system), and with a positive
+  definite model `B` the reduced matrix `N = M⁻¹ − (1/θ)·WᵀZZᵀW` is injective (`maskedN_injective`). So the kernels'
+  theorems hold under sizes, `Mm·M⁻¹ = 1` and positive definiteness of `B`, with no assumption on any solve:
+    * `middle_product_exact`  : `mv v = Mm·v` for every `v`, from `Mm·M⁻¹ = 1` alone          (C08 `QCtx.hmv`)
+    * `gcp_first_local_min_solved`                                                          (C08)
+    * `subspace_newton_point_pd` (and, under the computable pivot condition `SubCtxP` instead of positive
+      definiteness: `subspace_newton_point_solved`, `subspace_model_no_increase_solved`,
+      `subspace_direction_descent_solved`)                                                  (C09)
+    * `complete_iteration_descent_solved`                                                   (C01, composed kernels)
 -/
 import LbfgsbVerif.Proofs.GaussBridge
 import LbfgsbVerif.Props.C09Run
@@ -47,25 +52,31 @@ theorem gauss_unique (A : List (Vec K)) (b : Vec K) (k : Nat) (hb : b.length = k
 /-- **C08 (the product with the middle matrix is exact)** -/
 theorem middle_product_exact (i : CauchyIn K) (k : Nat) (Mm : Matrix (Fin k) (Fin k) K) (uf : i.useFactor = true)
     (hA : i.Minv.length = k) (hrow : ∀ r, r < k → (i.Minv.getD r []).length = k)
-    (hp : ∀ p ∈ pivotsOf i.Minv k, p ≠ 0) (hM : Mm * wmat k k i.Minv = 1) :
+    (hM : Mm * wmat k k i.Minv = 1) :
     ∀ v : List K, v.length = k → (i.mv v).length = k ∧ vec k (i.mv v) = Mm *ᵥ vec k v :=
-  mv_of_pivots i k Mm uf hA hrow hp hM
+  mv_of_pivots i k Mm uf hA hrow (pivots_of_left_inverse i.Minv k hA hrow Mm hM) hM
+
+/-- **a matrix with a left inverse has no vanishing pivot** — whatever rows the partial pivoting picks -/
+theorem regular_pivots (A : List (Vec K)) (k : Nat) (hA : A.length = k)
+    (hrow : ∀ i, i < k → (A.getD i []).length = k) (B : Matrix (Fin k) (Fin k) K) (hB : B * wmat k k A = 1) :
+    ∀ p ∈ pivotsOf A k, p ≠ 0 :=
+  pivots_of_left_inverse A k hA hrow B hB
 
 /-- the context of the Cauchy theorems from the pivot condition -/
 theorem qctx_of_pivots (i : CauchyIn K) (n k : Nat) (Mm : Matrix (Fin k) (Fin k) K)
     (hx : i.x.length = n) (hg : i.g.length = n) (hW : i.W.length = n) (hrow : ∀ r, r < n → (i.W.getD r []).length = k)
     (uf : i.useFactor = true) (hA : i.Minv.length = k) (hMrow : ∀ r, r < k → (i.Minv.getD r []).length = k)
-    (hp : ∀ p ∈ pivotsOf i.Minv k, p ≠ 0) (hM : Mm * wmat k k i.Minv = 1) (hs : (wmat k k i.Minv)ᵀ = wmat k k i.Minv) :
+    (hM : Mm * wmat k k i.Minv = 1) (hs : (wmat k k i.Minv)ᵀ = wmat k k i.Minv) :
     QCtx i n k Mm :=
-  ⟨hx, hg, hW, hrow, C08.middle_symm Mm _ hM hs, mv_of_pivots i k Mm uf hA hMrow hp hM⟩
+  ⟨hx, hg, hW, hrow, C08.middle_symm Mm _ hM hs, middle_product_exact i k Mm uf hA hMrow hM⟩
 
 /-- **C08 (first local minimiser — the product with the middle matrix discharged)** with a non-empty memory: sizes, a
-feasible point, `Mm·M⁻¹ = 1` with `M⁻¹` symmetric and pivots that do not vanish, a positive definite model and an inactive
+feasible point, `Mm·M⁻¹ = 1` with `M⁻¹` symmetric, a positive definite model and an inactive
 floor on `f''` -/
 theorem gcp_first_local_min_solved (i : CauchyIn K) (n k : Nat) (Mm : Matrix (Fin k) (Fin k) K) (hk : kOf i = k)
     (hx : i.x.length = n) (hg : i.g.length = n) (hW : i.W.length = n) (hrow : ∀ r, r < n → (i.W.getD r []).length = k)
     (uf : i.useFactor = true) (hA : i.Minv.length = k) (hMrow : ∀ r, r < k → (i.Minv.getD r []).length = k)
-    (hp : ∀ p ∈ pivotsOf i.Minv k, p ≠ 0) (hM : Mm * wmat k k i.Minv = 1) (hs : (wmat k k i.Minv)ᵀ = wmat k k i.Minv)
+    (hM : Mm * wmat k k i.Minv = 1) (hs : (wmat k k i.Minv)ᵀ = wmat k k i.Minv)
     (box : InBoxF i.lb i.ub i.x)
     (pd : ∀ a : Fin n → K, a ≠ 0 → 0 < a ⬝ᵥ (bmat i.theta (wmat n k i.W) Mm *ᵥ a))
     (floor : ∀ dd : Fin n → K, dd ≠ 0 →
@@ -78,7 +89,7 @@ theorem gcp_first_local_min_solved (i : CauchyIn K) (n k : Nat) (Mm : Matrix (Fi
       vec k (cauchy i).2 =
         (wmat n k i.W)ᵀ *ᵥ (vec n (clip (vsub i.x (smul tF i.g)) i.lb i.ub) - vec n i.x) :=
   C08.gcp_first_local_min i n k Mm hk
-    ⟨qctx_of_pivots i n k Mm hx hg hW hrow uf hA hMrow hp hM hs, box, pd, floor⟩
+    ⟨qctx_of_pivots i n k Mm hx hg hW hrow uf hA hMrow hM hs, box, pd, floor⟩
 
 /-- **C09 (the model returns the box-truncated Newton point — solves discharged)** -/
 theorem subspace_newton_point_solved (i : SubIn K) (n k : Nat) (Mm : Matrix (Fin k) (Fin k) K) (h : SubCtxP i n k Mm) :
@@ -105,6 +116,22 @@ theorem subspace_direction_descent_solved (i : SubIn K) (n k : Nat) (Mm : Matrix
     vec n i.g ⬝ᵥ (vec n (subspaceMin i) - vec n i.x) < 0 :=
   subspace_direction_descent i n k Mm _ h.toSubCtx hsym hpsd hc
 
+/-- **C09 (… no hypothesis on any solve)** sizes, a feasible Cauchy point, `Mm·M⁻¹ = 1`, `c = Wᵀ(x_cp − x)` and a positive
+definite model: the reduced system is then regular (`maskedN_injective`), so no pivot of either elimination vanishes -/
+theorem subspace_newton_point_pd (i : SubIn K) (n k : Nat) (Mm : Matrix (Fin k) (Fin k) K)
+    (hx : i.x.length = n) (hg : i.g.length = n) (hxc : i.xc.length = n) (hW : i.W.length = n)
+    (hrow : ∀ r, r < n → (i.W.getD r []).length = k) (hcl : i.c.length = k) (box : InBoxF i.lb i.ub i.xc)
+    (hθ : i.theta ≠ 0) (uf : i.useFactor = true) (hk : subK i = k) (hMl : i.Minv.length = k)
+    (hMrow : ∀ r, r < k → (i.Minv.getD r []).length = k) (hM : Mm * wmat k k i.Minv = 1)
+    (hc : vec k i.c = (wmat n k i.W)ᵀ *ᵥ (vec n i.xc - vec n i.x))
+    (pd : ∀ a : Fin n → K, a ≠ 0 → 0 < a ⬝ᵥ (bmat i.theta (wmat n k i.W) Mm *ᵥ a)) :
+    ∃ (al : K) (u : Vec K), u.length = n ∧ 0 ≤ al ∧ al ≤ 1 ∧ subspaceMin i = vadd i.xc (smul al u) ∧
+      InBoxF i.lb i.ub (subspaceMin i) ∧
+      (∀ r, maskF n (freeMask i.xc i.lb i.ub) r = false → vec n u r = 0) ∧
+      (∀ r, maskF n (freeMask i.xc i.lb i.ub) r = true →
+        (vec n i.g + bmat i.theta (wmat n k i.W) Mm *ᵥ ((vec n i.xc - vec n i.x) + vec n u)) r = 0) :=
+  subspace_newton_point_solved i n k Mm (SubCtxP.of_pd hx hg hxc hW hrow hcl box hθ uf hk hMl hMrow hM hc pd)
+
 /-- **C01 (descent at every non-stationary iterate, for the composed kernels — solves discharged)**: the direction
 `x̄ − x` the complete model computes from the memory snapshot is a descent direction, under: sizes, `Mm·M⁻¹ = 1` with
 `M⁻¹` symmetric, non-vanishing pivots of the two eliminations, a positive definite model and an inactive floor. -/
@@ -130,7 +157,7 @@ theorem complete_iteration_descent_solved (lb ub : Vec K) (e : K) (x g : Vec K) 
     vec n (kernelInput x g lb ub mats e).g ⬝ᵥ
       (vec n (xbarModel lb ub e x g mats) - vec n (kernelInput x g lb ub mats e).x) < 0 :=
   Lbfgsb.complete_iteration_descent lb ub e x g mats n k Mm _ hk
-    ⟨qctx_of_pivots _ n k Mm hx hg hW hrow uf hsub.hMl hsub.hMrow hsub.pivM hsub.hM hs, box, pd, floor⟩ hns hsub.toSubCtx
+    ⟨qctx_of_pivots _ n k Mm hx hg hW hrow uf hsub.hMl hsub.hMrow hsub.hM hs, box, pd, floor⟩ hns hsub.toSubCtx
 
 end Lbfgsb.C09
 
@@ -163,7 +190,6 @@ theorem ex_subctxP : SubCtxP exSub 2 2 exM where
     ext a b
     fin_cases a <;> fin_cases b <;> simp [exM, exSub, wmat, Matrix.mul_apply, Fin.sum_univ_two]
   hc := ex_subctx.hc
-  pivM := by rw [ex_pivM]; decide
   pivN := by rw [ex_pivN]; decide
 
 example : ∃ (al : ℚ) (u : Vec ℚ), 0 ≤ al ∧ al ≤ 1 ∧ subspaceMin exSub = vadd exSub.xc (smul al u) :=
